@@ -187,6 +187,14 @@ def gen_plan(rng, family):
         else:
             main.append(["shutdown", "kill"])
             plan["final"] = "await"
+    elif family == "cancelshutdown":            # C01 / C05: futures cancelled while they wait (table or id queue), then a graceful WAITED shutdown (H11)
+        plan["workers"] = rng.choice([1, 1, 2])
+        k = rng.randint(1, 7)
+        for _ in range(k):
+            main.append(["submit", rng.choice(["long", "value", "value", "hugearg", "sysexit"])])
+        for _ in range(rng.choice([1, 1, 2])):
+            main.append(["cancel", k - 1 - rng.randrange(min(3, k))])
+        plan["final"] = rng.choice(["shutdown", "await+shutdown", "shutdown"])
     elif family == "mix":                       # C01: everything at once -- time-outs, kills, fatal tasks, cancels, threads, resizes
         plan["workers"] = rng.choice([1, 1, 2, 3])
         plan["timeout"] = rng.choice([None, 0.05, 0.05])
@@ -822,7 +830,7 @@ def analyze(plan, r):
         out.append({"props": props, "kind": kind, "sig": sig, "detail": detail})
 
     hang_props = ["C01"]
-    if fam == "shutdown":
+    if fam in ("shutdown", "cancelshutdown"):
         hang_props.append("C05")
     if fam in ("timeout",) or (plan["timeout"] and not kills):
         hang_props.append("C07")
